@@ -86,6 +86,8 @@ type RaceObs struct {
 	LateDatagrams int    `json:"datagrams_after_return"`
 	RemovedSeq    uint64 `json:"removal_returned_seq"`
 	LateSeq       uint64 `json:"first_late_send_seq,omitempty"`
+	DuringDrain   int    `json:"datagrams_during_drain,omitempty"` // handed to Bind.Send between "remove issued" and "remove returned"
+	WaitMillis    int    `json:"wait_ms,omitempty"`
 }
 
 const unknownID = 9999
@@ -810,6 +812,149 @@ func raceRound(kind string, delayMicros int) Case {
 	return c
 }
 
+// ---------------------------------------------------------------- removal while the sequential sender is busy
+
+// drainStart builds the deterministic interleaving of seeded change C15/b: peer 1 has a session whose send counter is
+// past RekeyAfterMessages; Bind.Send blocks on data packet #1, packet #2 waits on peer.queue.outbound, remove=true is
+// issued in a goroutine (Stop pushes its terminator and waits for the sender), then Send is released.  "Removal
+// returned" and the START of every Bind.Send are stamped with the sim's global sequence.  Datagrams handed to Send
+// before the return are only counted (the property speaks about "once removed"); the scenario then stays alive for
+// `wait` (RekeyTimeout + jitter and a margin) so that a timer that was armed during the drain can fire: a datagram to
+// the removed peer with a sequence number after the return is the violation.  drainStart returns a function that
+// waits and produces the case.
+func drainStart(wait time.Duration) func() Case {
+	c := Case{Mode: 1, Gen: "drain:sender-busy", Plan: []string{fmt.Sprintf("drain %d", wait.Milliseconds())}}
+	fail := func(msg string) func() Case { c.Stuck = msg; return func() Case { return c } }
+	r, err := newRunner()
+	if err != nil {
+		return fail(err.Error())
+	}
+	for _, a := range []string{"add 1 ep 1", "up", "tun 1", "respond 1 -1"} {
+		if !r.do(a) {
+			return fail(r.stuck)
+		}
+	}
+	p := r.peers[1]
+	pk := pkOf(p.pub)
+	if !r.w.Dev.VerifSetSendNonce(pk, device.RekeyAfterMessages+1) {
+		return fail("no session for the drain scenario")
+	}
+	r.w.Dev.VerifShiftHandshakeTimes(pk, 10*time.Second)
+	type start struct {
+		seq  uint64
+		to   netip.AddrPort
+		data []byte
+	}
+	var mu sync.Mutex
+	var starts []start
+	blocked := make(chan struct{})
+	release := make(chan struct{})
+	var once sync.Once
+	r.w.Bind.TakeSent()
+	r.w.Bind.SendGate = func(bufs [][]byte, to netip.AddrPort) {
+		mu.Lock()
+		for _, b := range bufs {
+			starts = append(starts, start{sim.Seq.Add(1), to, append([]byte{}, b...)})
+		}
+		mu.Unlock()
+		if len(bufs) > 0 && len(bufs[0]) > 0 && bufs[0][0] == ref.TypeTransport {
+			first := false
+			once.Do(func() { first = true })
+			if first {
+				close(blocked)
+				<-release
+			}
+		}
+	}
+	pkt := func(fill byte) []byte { return ref.IPv4([4]byte{10, 9, 9, 9}, [4]byte{10, 0, 1, 77}, 80, fill) }
+	r.w.Tun.Inject(pkt(1))
+	select {
+	case <-blocked:
+	case <-time.After(3 * time.Second):
+		close(release)
+		return fail("the sender never reached Bind.Send")
+	}
+	r.w.Tun.Inject(pkt(2))
+	waitFor := func(n int, d time.Duration) bool {
+		t0 := time.Now()
+		for time.Since(t0) < d {
+			if r.w.Dev.VerifPeer(pk).OutboundLen >= n {
+				return true
+			}
+			time.Sleep(200 * time.Microsecond)
+		}
+		return false
+	}
+	if !waitFor(1, 2*time.Second) {
+		close(release)
+		return fail("packet #2 never reached the outbound queue")
+	}
+	issued := sim.Seq.Add(1)
+	var removed uint64
+	done := make(chan struct{})
+	go func() {
+		r.w.Dev.IpcSet("public_key=" + hex.EncodeToString(p.pub[:]) + "\nremove=true\n")
+		removed = sim.Seq.Add(1)
+		close(done)
+	}()
+	// RemovePeer now holds the peer-map lock and waits in Stop for the blocked sender: no accessor that takes that lock
+	// may be called here.  Stop has pushed its terminator behind packet #2 long before 20 ms have passed.
+	time.Sleep(20 * time.Millisecond)
+	close(release)
+	select {
+	case <-done:
+	case <-time.After(10 * time.Second):
+		return fail("remove=true did not return")
+	}
+	t0 := time.Now()
+	return func() Case {
+		if d := wait - time.Since(t0); d > 0 {
+			time.Sleep(d)
+		}
+		r.w.Settle()
+		mu.Lock()
+		var late []sim.Sent
+		during := 0
+		var lateSeq uint64
+		for _, s := range starts {
+			if s.to != p.addr {
+				continue
+			}
+			if s.seq > removed {
+				late = append(late, sim.Sent{Seq: s.seq, To: s.to, Data: s.data})
+				if lateSeq == 0 {
+					lateSeq = s.seq
+				}
+			} else if s.seq > issued {
+				during++
+			}
+		}
+		mu.Unlock()
+		obs := r.observe(cosim.Out{Sent: late}, unknownID)
+		ghosts := 0
+		keys := map[int]bool{}
+		for _, k := range obs.Keys {
+			keys[k] = true
+		}
+		for _, e := range obs.Itab {
+			if !keys[int(e[1])] {
+				ghosts++
+			}
+		}
+		c.Race = &RaceObs{Kind: "drain", Ghosts: ghosts, LateDatagrams: len(late), RemovedSeq: removed, LateSeq: lateSeq,
+			DuringDrain: during, WaitMillis: int(wait.Milliseconds())}
+		c.Steps = append(r.steps, Step{Ev: Ev{K: "remove", Pk: 1}, Obs: obs})
+		finished := make(chan struct{})
+		go func() { r.w.Close(); close(finished) }()
+		select {
+		case <-finished:
+		case <-time.After(10 * time.Second):
+			c.Stuck = "Close did not return"
+		}
+		return c
+	}
+}
+
 // ---------------------------------------------------------------- Gallina
 
 func gEv(e Ev) string {
@@ -914,6 +1059,8 @@ func main() {
 	length := flag.Int("len", 45, "actions per random scenario")
 	grid := flag.Bool("grid", true, "run the life-cycle x revocation grid")
 	race := flag.Int("race", 0, "rounds of the concurrent variant (per kind)")
+	drain := flag.Int("drain", 3, "rounds of the removal-while-sender-busy scenario (each stays alive for -drainwait)")
+	drainWait := flag.Duration("drainwait", 5600*time.Millisecond, "how long a drain scenario waits for timers after the removal returned")
 	shards := flag.Int("shards", 16, "case files")
 	out := flag.String("out", "out/C15", "output directory")
 	replayIn := flag.String("replay", "", "JSON file with cases (plans) to run")
@@ -925,6 +1072,21 @@ func main() {
 	var cases []Case
 	runIn := func(cs []Case, gen string) {
 		for _, c := range cs {
+			if len(c.Plan) == 1 && strings.HasPrefix(c.Plan[0], "drain") {
+				f := strings.Fields(c.Plan[0])
+				w := *drainWait
+				if len(f) > 1 {
+					if ms, err := strconv.Atoi(f[1]); err == nil {
+						w = time.Duration(ms) * time.Millisecond
+					}
+				}
+				rc := drainStart(w)()
+				if gen != "" {
+					rc.Gen = gen
+				}
+				cases = append(cases, rc)
+				continue
+			}
 			if len(c.Plan) == 1 && strings.HasPrefix(c.Plan[0], "race ") {
 				f := strings.Fields(c.Plan[0])
 				d, _ := strconv.Atoi(f[2])
@@ -968,6 +1130,10 @@ func main() {
 				}
 			}
 		}
+		var pending []func() Case
+		for i := 0; i < *drain; i++ {
+			pending = append(pending, drainStart(*drainWait))
+		}
 		if *grid {
 			plans, names := gridPlans()
 			for i, p := range plans {
@@ -981,6 +1147,9 @@ func main() {
 		for i := 0; i < *race; i++ {
 			cases = append(cases, raceRound("initiation", 200+r.Intn(400)))
 			cases = append(cases, raceRound("tun", r.Intn(150)))
+		}
+		for _, f := range pending {
+			cases = append(cases, f())
 		}
 	}
 	if *shards > len(cases) {
